@@ -99,6 +99,9 @@ INLINES = {
     'items_punct': ['cat', T('Intro:'), ' ', ['items', 'itemize', [[T('a'), T('First.')], [T('b'), T('Second;')], [T('c'), T('Third')]]]],
     'verb': ['verb', 'x y'],
     'verb2': ['verb', '\\z{', '+'],
+    'verb_dollar': ['verb', '$'],
+    'verb_braces': ['cat', ['verb', '{'], ' ', ['verb', '}x']],
+    'verb_pct': ['verb', '100%', '!'],
     'endash': ['special', '--'],
     'emdash': ['special', '---'],
     'quotes': ['cat', ['special', '``'], T('Q'), ['special', "''"]],
@@ -121,6 +124,7 @@ INLINES = {
     'GLSpl': ['gls', 'GLSpl', 'ALPHAS'],
     'glsdesc': ['gls', 'glsdesc', 'a desc'],
     'unknown0': ['unknown', 'zzbar'],
+    'missing_arg_par': ['cat', ['G', '\\tw', 'and'], '\n\n', T('Next')],
 }
 
 # constructs with one text child
@@ -160,7 +164,7 @@ WRAPPERS = {
 SIMPLE_CHILD = {'section', 'subsection*', 'chapter_opt', 'theorem_opt', 'proof_opt', 'cite_optarg',
                 'fop_optarg', 'href'}
 # inlines that must not stand inside an argument (TeX: verbatim material, comments eat the brace)
-TOPLEVEL_ONLY = {'verb', 'verb2', 'comment', 'skip', 'tikz'}
+TOPLEVEL_ONLY = {'verb', 'verb2', 'verb_dollar', 'verb_braces', 'verb_pct', 'comment', 'skip', 'tikz'}
 # wrappers that lose text by design (argument dropped): children hidden -> not wrappers of flows
 SEPS = [' ', '\n', '', ' \n  ', '\n\n']
 OPTS = {'pack': '*'}
